@@ -19,7 +19,7 @@ RULE = ('pipeline Generator(args) -> for each file -> Solver([-f file -na 2|3] +
         'four types, accepted parameter vectors sized so the reference can enumerate (n1 <= 6, pmax <= 3; zero-capacity lecturers '
         'included), harness-seeded RNGs; monitors: no exception anywhere; the Model the solver built equals the spec the strict '
         'parser reads from the same file; the LP result is correct (valid matching by the reference when Optimal, status matches '
-        'reference feasibility, stable and stability_correct True under -stab on two-sided files); every third file is also run '
+        'reference feasibility, stable and stability_correct True under -stab on two-sided files); about 60% of the files small enough are also run '
         'with -bf and compared with the reference summary; non-trivial = distinct (type, parameters, file, option set) with a '
         'feasible outcome (infeasible ones are counted and floored separately); evaluations = solver runs')
 ASSUMPTIONS = ['strict instance-file parser in rv/outparse.py', 'reference model in rv/refmodel.py']
@@ -38,6 +38,20 @@ def run_case(cs, ctx):
     rng = random.Random(cs)
     mp = ['ha', 'sm', 'hr', 'spa', 'spa'][cs % 5]
     v = ge.legal_vector(rng, mp=mp, max_n1=6, max_n2=5, max_n3=4)
+    if rng.random() < 0.5:
+        # README-like tight shape: many students per place, targets below the maximum size
+        v['n1'] = rng.randint(4, 6)
+        if mp != 'sm':
+            v['n2'] = rng.randint(3, 4)
+            v['uq'] = v['n2'] + rng.choice([0, 1, 1, 2])
+            v['lq'] = rng.choice([None, 0, 1, 2])
+        v['pmin'] = rng.randint(1, 2)
+        v['pmax'] = 3
+        if mp == 'spa':
+            v['n3'] = rng.randint(2, 3)
+            v['luq'] = rng.randint(max(1, v['n1'] - 2), v['n1'] + 1)
+            v['lt'] = rng.randint(1, v['luq'])
+            v['llq'] = rng.choice([None, 0, 1]) if v['lt'] >= 1 else None
     n2 = v['n1'] if mp == 'sm' else v['n2']
     v['pmax'] = min(v['pmax'], 3)
     v['pmin'] = min(v['pmin'], v['pmax'])
@@ -106,7 +120,7 @@ def run_case(cs, ctx):
         if any(u == 0 for u in spec['luq']):
             ctx.cov('zero_capacity_lecturer')
         # (3) brute force
-        if rng.random() < 0.34 and (spec['np'] + 1) ** spec['ns'] <= 8000:
+        if rng.random() < 0.6 and (spec['np'] + 1) ** spec['ns'] <= 16000:
             pc = rng.random() < 0.3
             o = {'twopl': twopl, 'pc': pc, 'stab': False, 'crits': [], 'bf': True}
             a = ['-f', path, '-na', str(na)] + sp.opts_to_argv(o, rng)
